@@ -405,7 +405,7 @@ class ExpressionParser:
         elif "d" in lhs and "/dt" in lhs:
             diff_eq = True
             lhs = lhs.split('/dt')[0]
-            lhs = lhs.replace("d", "", count=1)
+            lhs = lhs.replace("d", "", 1)
         else:
             diff_eq = False
 
